@@ -308,7 +308,14 @@ macro_rules! gglwe_like {
     };
 }
 
-gglwe_like!(GLWESwitchingKey<Vec<u8>>, "GLWESwitchingKey", |p| GLWESwitchingKey::alloc(p.n(), p.b(), p.k(), Rank(p.rank as u32), Rank(p.rank_out as u32), Dnum(p.dnum as u32), Dsize(p.dsize as u32)));
+gglwe_like!(GLWESwitchingKey<Vec<u8>>, "GLWESwitchingKey", |p| {
+    // (distinct non-zero secret degrees, so that their transport is observable)
+    use poulpy_core::layouts::GLWESwitchingKeyDegreesMut;
+    let mut k = GLWESwitchingKey::alloc(p.n(), p.b(), p.k(), Rank(p.rank as u32), Rank(p.rank_out as u32), Dnum(p.dnum as u32), Dsize(p.dsize as u32));
+    *k.input_degree() = Degree(p.n().0);
+    *k.output_degree() = Degree(2 * p.n().0 + 1);
+    k
+});
 // (automorphism keys carry a Galois element: a negative odd value derived from the parameters, so that its transport is observable)
 gglwe_like!(GLWEAutomorphismKey<Vec<u8>>, "GLWEAutomorphismKey", |p| {
     use poulpy_core::layouts::SetGaloisElement;
@@ -318,11 +325,39 @@ gglwe_like!(GLWEAutomorphismKey<Vec<u8>>, "GLWEAutomorphismKey", |p| {
 });
 gglwe_like!(GLWETensorKey<Vec<u8>>, "GLWETensorKey", |p| GLWETensorKey::alloc(p.n(), p.b(), p.k(), Rank(p.rank as u32), Dnum(p.dnum as u32), Dsize(p.dsize as u32)));
 gglwe_like!(GGLWEToGGSWKey<Vec<u8>>, "GGLWEToGGSWKey", |p| GGLWEToGGSWKey::alloc(p.n(), p.b(), p.k(), Rank(p.rank as u32), Dnum(p.dnum as u32), Dsize(p.dsize as u32)));
-gglwe_like!(GLWEToLWEKey<Vec<u8>>, "GLWEToLWEKey", |p| GLWEToLWEKey::alloc(p.n(), p.b(), p.k(), Rank(p.rank as u32), Dnum(p.dnum as u32)));
-gglwe_like!(LWEToGLWEKey<Vec<u8>>, "LWEToGLWEKey", |p| LWEToGLWEKey::alloc(p.n(), p.b(), p.k(), Rank(p.rank_out as u32), Dnum(p.dnum as u32)));
-gglwe_like!(LWESwitchingKey<Vec<u8>>, "LWESwitchingKey", |p| LWESwitchingKey::alloc(p.n(), p.b(), p.k(), Dnum(p.dnum as u32)));
+gglwe_like!(GLWEToLWEKey<Vec<u8>>, "GLWEToLWEKey", |p| {
+    // (distinct non-zero secret degrees, so that their transport is observable)
+    use poulpy_core::layouts::GLWESwitchingKeyDegreesMut;
+    let mut k = GLWEToLWEKey::alloc(p.n(), p.b(), p.k(), Rank(p.rank as u32), Dnum(p.dnum as u32));
+    *k.input_degree() = Degree(p.n().0);
+    *k.output_degree() = Degree(2 * p.n().0 + 1);
+    k
+});
+gglwe_like!(LWEToGLWEKey<Vec<u8>>, "LWEToGLWEKey", |p| {
+    // (distinct non-zero secret degrees, so that their transport is observable)
+    use poulpy_core::layouts::GLWESwitchingKeyDegreesMut;
+    let mut k = LWEToGLWEKey::alloc(p.n(), p.b(), p.k(), Rank(p.rank_out as u32), Dnum(p.dnum as u32));
+    *k.input_degree() = Degree(p.n().0);
+    *k.output_degree() = Degree(2 * p.n().0 + 1);
+    k
+});
+gglwe_like!(LWESwitchingKey<Vec<u8>>, "LWESwitchingKey", |p| {
+    // (distinct non-zero secret degrees, so that their transport is observable)
+    use poulpy_core::layouts::GLWESwitchingKeyDegreesMut;
+    let mut k = LWESwitchingKey::alloc(p.n(), p.b(), p.k(), Dnum(p.dnum as u32));
+    *k.input_degree() = Degree(p.n().0);
+    *k.output_degree() = Degree(2 * p.n().0 + 1);
+    k
+});
 gglwe_like!(GGLWECompressed<Vec<u8>>, "GGLWECompressed", |p| GGLWECompressed::alloc(p.n(), p.b(), p.k(), Rank(p.rank as u32), Rank(p.rank_out as u32), Dnum(p.dnum as u32), Dsize(p.dsize as u32)));
-gglwe_like!(GLWESwitchingKeyCompressed<Vec<u8>>, "GLWESwitchingKeyCompressed", |p| GLWESwitchingKeyCompressed::alloc(p.n(), p.b(), p.k(), Rank(p.rank as u32), Rank(p.rank_out as u32), Dnum(p.dnum as u32), Dsize(p.dsize as u32)));
+gglwe_like!(GLWESwitchingKeyCompressed<Vec<u8>>, "GLWESwitchingKeyCompressed", |p| {
+    // (distinct non-zero secret degrees, so that their transport is observable)
+    use poulpy_core::layouts::GLWESwitchingKeyDegreesMut;
+    let mut k = GLWESwitchingKeyCompressed::alloc(p.n(), p.b(), p.k(), Rank(p.rank as u32), Rank(p.rank_out as u32), Dnum(p.dnum as u32), Dsize(p.dsize as u32));
+    *k.input_degree() = Degree(p.n().0);
+    *k.output_degree() = Degree(2 * p.n().0 + 1);
+    k
+});
 gglwe_like!(GLWEAutomorphismKeyCompressed<Vec<u8>>, "GLWEAutomorphismKeyCompressed", |p| {
     use poulpy_core::layouts::SetGaloisElement;
     let mut k = GLWEAutomorphismKeyCompressed::alloc(p.n(), p.b(), p.k(), Rank(p.rank as u32), Dnum(p.dnum as u32), Dsize(p.dsize as u32));
